@@ -13,7 +13,9 @@ import (
 	"strings"
 )
 
-type W interface{ ws(sb *strings.Builder, ind string) }
+type W interface {
+	ws(sb *strings.Builder, ind string)
+}
 
 type WPrim struct {
 	Kind    string // nat int long float double string bytes tag booltag byte ...
@@ -23,6 +25,7 @@ type WPrim struct {
 }
 
 type WCall struct {
+	Fn      *types.Func
 	Family  string
 	Role    string
 	Operand string
@@ -191,14 +194,14 @@ type wireCfg struct {
 }
 
 type wireBuilder struct {
-	ir      *FuncIR
-	cfg     *wireCfg
-	co      *Corpus
-	funcs   map[*types.Func]*FuncInfo
-	lenOf   map[string]string // local count variable → collection it sizes
-	keysOf  map[string]string // local keys slice → map it was collected from
-	locType map[string]string
-	resizes map[string]string // collection → length expression it is resized to
+	ir       *FuncIR
+	cfg      *wireCfg
+	co       *Corpus
+	funcs    map[*types.Func]*FuncInfo
+	lenOf    map[string]string // local count variable → collection it sizes
+	keysOf   map[string]string // local keys slice → map it was collected from
+	locType  map[string]string
+	resizes  map[string]string // collection → length expression it is resized to
 	problems []string
 }
 
@@ -347,6 +350,11 @@ func (b *wireBuilder) build(blk Block, dir string) []W {
 			if strings.HasPrefix(over, "len(") && n.Count {
 				over = strings.TrimSuffix(strings.TrimPrefix(over, "len("), ")")
 			}
+			if n.Count && (strings.HasPrefix(over, "$") || strings.HasPrefix(over, "#")) {
+				if coll := indexedColl(body); coll != "" {
+					over = coll
+				}
+			}
 			out = append(out, &WLoop{Over: over, Body: body, Pos: n.Pos})
 		case *ReturnN:
 			if len(n.Vals) > 0 {
@@ -368,6 +376,30 @@ func (b *wireBuilder) build(blk Block, dir string) []W {
 		}
 	}
 	return out
+}
+
+// indexedColl returns the collection indexed by the loop variable in the body's operands ("X[*]").
+func indexedColl(l []W) string {
+	for _, w := range l {
+		op := ""
+		switch w := w.(type) {
+		case *WPrim:
+			op = w.Operand
+		case *WCall:
+			op = w.Operand
+		case *WIf:
+			if c := indexedColl(w.Then); c != "" {
+				return c
+			}
+			if c := indexedColl(w.Else); c != "" {
+				return c
+			}
+		}
+		if i := strings.Index(op, "[*]"); i > 0 {
+			return op[:i]
+		}
+	}
+	return ""
 }
 
 func terminates(l []W) bool {
@@ -395,6 +427,16 @@ func (b *wireBuilder) call(n *CallN, dir string) []W {
 		}
 		w := &WPrim{Kind: ps.Kind, Pos: n.Pos}
 		switch ps.Kind {
+		case "size":
+			if ps.Dir == "r" && len(n.Results) >= 2 {
+				w.Operand = b.canon(n.Results[1])
+			} else if len(n.Args) >= 2 {
+				w.Operand = b.canon(n.Args[1])
+			}
+		case "calcsize":
+			if len(n.Args) >= 1 {
+				w.Operand = b.canon(n.Args[0])
+			}
 		case "tag":
 			w.Consts = []string{b.canon(n.Args[1])}
 		case "booltag":
@@ -421,7 +463,7 @@ func (b *wireBuilder) call(n *CallN, dir string) []W {
 	if !ok {
 		return nil
 	}
-	w := &WCall{Family: fam, Role: crole, Pos: n.Pos}
+	w := &WCall{Fn: n.Fn, Family: fam, Role: crole, Pos: n.Pos}
 	sig := n.Fn.Type().(*types.Signature)
 	if sig.Recv() != nil {
 		w.Operand = b.canon(n.Recv)
